@@ -333,7 +333,8 @@ func runBusy(id int, sc Scenario, seed int64) Rec {
 			atFail <- struct{}{}
 			select {
 			case <-gate:
-			case <-time.After(3 * time.Second):
+			case <-time.After(l1.Patience(3 * time.Second)):
+				l1.Expired()
 			}
 		}
 		return func() {}
@@ -351,11 +352,13 @@ func runBusy(id int, sc Scenario, seed int64) Rec {
 			select {
 			case <-l.LoginEntered(): // Read is inside RemoteLogin now (about to wait for the tracker's mutex)
 				time.Sleep(200 * time.Microsecond)
-			case <-time.After(time.Second):
+			case <-time.After(l1.Patience(time.Second)):
+				l1.Expired()
 			}
 		}
 		close(gate)
-	case <-time.After(2 * time.Second):
+	case <-time.After(l1.Patience(2 * time.Second)):
+		l1.Expired()
 		close(gate)
 	}
 	l.WaitReturn(l1.FaultWait())
